@@ -170,6 +170,26 @@ def handle (words : List String) : String :=
   if let some r := DrvC18.handle words then r else
   -- END C18
   match words with
+  -- BEGIN C02R4
+  | "bityk" :: name :: k :: rest =>
+    -- as `bity` (compile-time view of a built-in call: acceptance + static result type) given the k static argument types, followed by
+    -- the k argument VALUES: names the known-finding region of C02 the call lies in (KF/C02.lean `c02BuiltinGap`: a function of the
+    -- built-in, the static argument types and the run-time argument classes)
+    let n := k.toNat?.getD 0
+    match (rest.take n).mapM parseTyStr, (rest.drop n).mapM parseVal with
+    | some tys, some vals =>
+      let acc := match acceptBuiltin name tys with
+        | some none => "ok"
+        | some (some code) => toString code
+        | none => "unmodelled"
+      let ty := match Gen.builtinTypes.find? (·.1 == name) with
+        | some (_, .const m) => tyStrSimple { major := m }
+        | some (_, .arg0) => tyStrSimple (tys.headD Ty.none)
+        | _ => "custom"
+      let kf := if KF.c02BuiltinGap name tys (vals.map fun v => (v.type, v.isNull)) then " kf=C02.static_vs_runtime.bity." ++ name else ""
+      if acc == "unmodelled" then "model=unmodelled" ++ kf else "model=accept=" ++ acc ++ " ty=" ++ ty ++ kf
+    | _, _ => "bad-op"
+  -- END C02R4
   -- BEGIN C02R3
   | ["opk", name, v1, v2, st1, st2] =>
     -- as `op` with static operand types, plus the known-finding region of C02 the case lies in (KF/C02.lean `c02OpGap`: a
